@@ -796,13 +796,172 @@ def iso_classes(n, max_mu):
 
 
 # ------------------------------------------------------------------------------------------------
+# rule-driven starts: molecules on which a whole-molecule rewriting step really rewrites a bond to / from a coordinate
+# bond, preferably a bond that closes a ring (the ring cache must then follow)
+# ------------------------------------------------------------------------------------------------
+
+REWRITERS = ['standardize', 'canonicalize', 'standardize_charges', 'fix_resonance', 'neutralize']
+DATIVE_FAMILIES = [   # covalently drawn dative bonds of the families the rule tables know (chelates, N->B, bridges, metallocenes)
+    'CN(C)(C)B(C)(C)C', 'C[N+](C)(C)[B-](C)(C)C', 'CN1(C)CCB1(C)C', 'CN1(C)CCCCB1(C)C', 'CC1=N(C)B(C)(C)OC1', 'CS1(C)CCB1(C)C',
+    'CO1(C)CCCB1(C)C', 'FB1(F)N2C=CC=C2C(C)=C2C=CC=N12', 'CB1(C)N2C=CC=C2C=C2C=CC=N12', '[H]B1([H])[H]B([H])([H])[H]1',
+    'CB1(C)[H]B(C)(C)[H]1', '[Fe]1234C5C1C2C3C45', '[Fe]12345(C6C1C2C3C46)C1C5C2C3C41', '[Ru]1234C5=C1C2C3=C45',
+    'O#C[Fe](C#O)(C#O)C#O', 'O#C[Cr]1(C#O)CCC1', 'N#C[Fe]C#N', 'N#C[Pd]1CCCC1C#N', 'CN1C=CN(C)C1=[Pd]', 'CN1C=CN2CC[Pd]=C12',
+    'C[N](C)(C)[Cu]', 'CN1(C)CC[Cu]1', 'CP(C)(C)(C)[Pd]', 'CP1(C)(C)CC[Pd]1', 'C[O](C)(C)[Mg]', 'C[O]1(C)CC[Mg]1', 'O=C=N[Fe]',
+    'O=C=N[Fe]1CCC1', 'N#CO[Cu]', 'O=C([Fe])C', 'O=C1CC[Fe]1', 'O=C([Fe])[Fe]',
+]
+
+
+def _instantiate(pattern, rng):
+    """a concrete molecule built from a rule's query pattern: one element per query atom, the drawn bond orders, methyl /
+    methylene substituents up to the required neighbour count. Best effort; the caller verifies that the rule fires."""
+    from chython import MoleculeContainer
+    from chython.periodictable import Element
+    mol = MoleculeContainer()
+    need = {}
+    for n, a in pattern.atoms():
+        z = getattr(a, 'atomic_number', None)
+        cls = type(a).__name__
+        if cls == 'AnyMetal':
+            z = rng.choice([26, 46, 29, 44, 28])
+        elif cls == 'AnyElement' or z is None:
+            nums = getattr(a, '_numbers', None)
+            z = nums[0] if nums else 6
+        ch = getattr(a, 'charge', 0) or 0
+        if isinstance(ch, tuple):
+            ch = ch[0] if ch else 0
+        mol.add_atom(Element.from_atomic_number(z)(charge=ch, is_radical=bool(getattr(a, 'is_radical', False))), n,
+                     _skip_calculation=True)
+        need[n] = (tuple(getattr(a, 'neighbors', ()) or ()), tuple(getattr(a, 'hybridization', ()) or ()))
+    for n, m, b in pattern.bonds():
+        o = b.order[0] if isinstance(b.order, tuple) else b.order
+        mol.add_bond(n, m, o, _skip_calculation=True)
+    nxt = max(mol._atoms) + 1
+    for n, (nbrs, hyb) in need.items():
+        drawn = [b.order for b in mol._bonds[n].values()]
+        want = min(nbrs) if nbrs else len(drawn)
+        first = True
+        while len(mol._bonds[n]) < want:
+            o = 1
+            if first and hyb and 2 in hyb and 1 not in hyb and 2 not in drawn:
+                o = 2
+            elif first and hyb and 3 in hyb and 1 not in hyb and 2 not in hyb and 3 not in drawn:
+                o = 3
+            first = False
+            mol.add_atom(Element.from_atomic_number(6)(), nxt, _skip_calculation=True)
+            mol.add_bond(n, nxt, o, _skip_calculation=True)
+            nxt += 1
+    mol.fix_structure()
+    return mol
+
+
+def _coordinate_changes(mol):
+    """bonds whose order a rewriting step changes to or from 8, found by running the step on a copy"""
+    out = set()
+    before = {frozenset((n, m)): b.order for n, m, b in mol.bonds()}
+    for op in ('standardize', 'canonicalize'):
+        c = mol.copy()
+        try:
+            getattr(c, op)()
+        except Exception:
+            continue
+        if set(c._atoms) != set(mol._atoms):   # canonicalize removed hydrogens: compare the common part only
+            pass
+        for n, m, b in c.bonds():
+            k = frozenset((n, m))
+            if k in before and (before[k] == 8) != (b.order == 8):
+                out.add(tuple(sorted(k)))
+    return out
+
+
+def _tether(mol, n, m, rng):
+    """close a ring through the bond n-m without touching the neighbour counts of n and m: link a neighbour of n to a
+    neighbour of m directly or by a short carbon chain. Returns a new molecule or None."""
+    from chython.periodictable import Element
+    an = [a for a in mol._bonds[n] if a != m and mol._atoms[a].atomic_number == 6 and len(mol._bonds[a]) < 4]
+    bm = [b for b in mol._bonds[m] if b != n and mol._atoms[b].atomic_number == 6 and len(mol._bonds[b]) < 4]
+    if not an or not bm:
+        return None
+    a, b = rng.choice(an), rng.choice(bm)
+    if a == b or b in mol._bonds[a]:
+        return None
+    c = mol.copy()
+    chain = [a]
+    nxt = max(c._atoms) + 1
+    for _ in range(rng.choice([0, 1, 1, 2])):
+        c.add_atom(Element.from_atomic_number(6)(), nxt, _skip_calculation=True)
+        chain.append(nxt)
+        nxt += 1
+    chain.append(b)
+    try:
+        for x, y in zip(chain, chain[1:]):
+            c.add_bond(x, y, 1, _skip_calculation=True)
+        c.fix_structure()
+    except Exception:
+        return None
+    return c
+
+
+def rule_starts(rng, verbose=False):
+    """[(tag, wire ints)]: instances of the rule tables (auto-instantiated from every rule that touches an order-8 bond, plus the
+    dative families), kept only if a rewriting step really changes a coordinate bond on them; for each such bond a tethered
+    variant in which that bond closes a ring is added when the step still rewrites it there."""
+    pool, stats = [], collections.Counter()
+    try:
+        from chython.algorithms.standardize._groups import single_rules, double_rules
+        from chython.algorithms.standardize._metal_organics import rules as metal_rules
+        tables = [('single', single_rules), ('double', double_rules), ('metal', metal_rules)]
+    except Exception:   # the tables moved: recorded by the caller, the dative families are still used
+        tables = []
+        stats['rule-tables-not-importable'] += 1
+    for name, rules in tables:
+        for i, r in enumerate(rules):
+            pattern, bonds_fix = r[0], r[2]
+            touches8 = any(bo == 8 for _, _, bo in bonds_fix) or \
+                any(8 in (b.order if isinstance(b.order, tuple) else (b.order,)) for _, _, b in pattern.bonds())
+            if not touches8:
+                continue
+            stats['rules-touching-coordinate-bonds'] += 1
+            try:
+                pool.append((f'{name}[{i}]', _instantiate(pattern, rng)))
+            except Exception as e:
+                stats['not-instantiated:' + type(e).__name__] += 1
+    for smi in DATIVE_FAMILIES:
+        m = molgen.parse(smi)
+        if m is not None:
+            pool.append(('family', m))
+        else:
+            stats['family-smiles-rejected'] += 1
+    out = []
+    for tag, mol in pool:
+        try:
+            changes = _coordinate_changes(mol)
+        except Exception:
+            changes = set()
+        if not changes:
+            stats['step-does-not-touch-coordinate-bonds'] += 1
+            continue
+        stats['fires'] += 1
+        out.append((tag, wire.mol_to_ints(mol)))
+        for n, m in sorted(changes):
+            for _ in range(2):
+                t = _tether(mol, n, m, rng)
+                if t is not None and (n, m) in _coordinate_changes(t):
+                    stats['fires-on-ring-closing-bond'] += 1
+                    out.append((tag + '+ring', wire.mol_to_ints(t)))
+    if verbose:
+        print(dict(stats))
+    return out, stats
+
+
+# ------------------------------------------------------------------------------------------------
 # edit histories: the cached ring / component views of a LIVE object must describe its CURRENT bonds
 # ------------------------------------------------------------------------------------------------
 
 READS = ['sssr', 'rings_count', 'connected_components', 'atoms_rings', 'atoms_rings_sizes', 'skin_graph', 'aromatic_rings',
          'not_special_connectivity', 'connected_components_count', 'rings_graph']
 NULLARY = ['kekule', 'thiele', 'explicify_hydrogens', 'implicify_hydrogens', 'remove_coordinate_bonds', 'remove_metals',
-           'split_metal_salts', 'canonicalize', 'neutralize', 'remove_hydrogen_bonds', 'clean_stereo', 'fix_structure']
+           'split_metal_salts', 'canonicalize', 'neutralize', 'remove_hydrogen_bonds', 'clean_stereo', 'fix_structure',
+           'standardize', 'standardize_charges', 'fix_resonance', 'clean_isotopes']
 HISTORY_STARTS = ['C1CCCCC1', 'CCCCCC', 'CCC1CCCCC1', 'CCCC.CCC', 'c1ccccc1', 'c1ccc2ccccc2c1', 'C1CC2CCC1C2', 'C1CC1C1CC1',
                   'c1ccccn1~[Pd](Cl)(Cl)~n1ccccc1', '[Fe]~C1=CC=CC1', 'C1CCOC1~[Mg](Br)C', 'O~[Na+].[Cl-]', 'CC(=O)O~[Cu]~OC(C)=O',
                   'N~[Pt](~N)(Cl)Cl', 'C1CN~[Ni]~NC1', 'OC(=O)c1ccccc1O', 'C1CC2(C1)CCC2', '[Na+].[O-]c1ccccc1', 'C1=CC=CC=C1',
@@ -924,6 +1083,8 @@ def _next_op(rng, mol):
         fit += ['explicify_hydrogens', 'explicify_hydrogens']
     if zs & {3, 11, 12, 19, 20, 26, 28, 29, 46, 78}:
         fit += ['remove_metals', 'split_metal_salts']
+    if zs & {5, 24, 26, 28, 29, 44, 46, 78, 12} or any(a._charge for a in mol._atoms.values()):
+        fit += ['standardize', 'canonicalize', 'standardize_charges']   # rule-driven rewriting of bond orders / charges
     if fit and rng.random() < 0.75:
         return [rng.choice(fit)]
     return [rng.choice(NULLARY)]
@@ -952,8 +1113,9 @@ def run_history(start, ops, judge=None):
     return mol
 
 
-def gen_history(rng, start, steps):
-    """random history from `start` (wire ints): yields (ints, pre) snapshots after every operation"""
+def gen_history(rng, start, steps, first=None):
+    """random history from `start` (wire ints): yields (ints, pre) snapshots after every operation; `first`: operations
+    one of which is (usually) executed first — the step that is known to rewrite this start"""
     mol, _ = wire.ints_to_mol(start, calc=True)
     mol.fix_structure()
     for name in rng.sample(READS, rng.randint(2, len(READS))):   # views a caller looked at before editing
@@ -962,8 +1124,8 @@ def gen_history(rng, start, steps):
         except Exception:
             pass
     ops = []
-    for _ in range(steps):
-        op = _next_op(rng, mol)
+    for i in range(steps):
+        op = [rng.choice(first)] if first and i == 0 and rng.random() < 0.8 else _next_op(rng, mol)
         try:
             mol = apply_op(mol, op)
         except Exception:
@@ -1144,10 +1306,19 @@ def correspond(ctx):
         n = max(v for e in edges for v in e)
         if n <= 14:
             starts.append(graph_ints(n, edges, rng.sample(edges, min(rng.choice([0, 1, 2]), len(edges)))))
-    for start in starts:
-        for _ in range(6 if ctx.quick else 16):
+    try:
+        rstarts, rstats = rule_starts(rng)
+    except Exception as e:
+        rstarts, rstats = [], {'rule-starts-exception:' + type(e).__name__: 1}
+    for k, v in rstats.items():
+        ctx.dist('rule-starts:' + k, v)
+    for tag, ints in rstarts:
+        add('rule-instance', ints)
+    starts = [(s0, None) for s0 in starts] + [(ints, ['standardize', 'standardize', 'canonicalize']) for _, ints in rstarts]
+    for start, first in starts:
+        for _ in range((6 if ctx.quick else 16) if first is None else (3 if ctx.quick else 10)):
             try:
-                for ints, pre in gen_history(rng, start, rng.randint(2, 6)):
+                for ints, pre in gen_history(rng, start, rng.randint(1, 5) if first else rng.randint(2, 6), first):
                     pending.append(('edit-history', ints, pre))
                     last = pre[3]['ops'][-1]
                     ctx.dist('history-op:' + (last[0] if last[0] != 'txn' else ('txn-commit' if last[1] else 'txn-rollback')))
